@@ -9,6 +9,12 @@ CHECKS = [
      "technique": TECH + "seeded operation/fault histories vs reference model + no-shared-memory invariant, ddmin-shrunk replay files"},
 ]
 
+CHECKS.append(
+    {"property_id": "C06", "category": "exploration", "design_ref": "DESIGN.md §4 C06",
+     "text": "Seeded search over histories in which value reads are scheduled between public mutating operations on long-lived FunctionSignal objects (plain, sums, thermal noise, Askaryan pulses) and between attribute assignments on ray tracers / ray paths (all four tracer families). Oracle 1: a fresh twin rebuilt from the recorded definition and never read before the comparison must report the same quantities; oracle 2: independent eager evaluation of the signal definition where it is unambiguous. Includes the rejected set_buffers call (raises after a partial change) and invalid-then-valid ice assignment as faults. Sampled histories: evidence, not proof.",
+     "level_note": "Trusted: the fresh object built by the same pyrex code without intervening reads (oracle 1 cannot see an error that does not depend on read placement - oracle 2 covers plain signals for that), numpy FFT for oracle 2. In-place mutation of array elements or of a shared ice object is not generated (not an attribute assignment). A read raising the same exception type on the fresh object counts as agreement.",
+     "technique": TECH + "PRNG-scheduled read/mutate interleavings vs fresh-twin and eager-definition oracles"})
+
 NOT_APPLICABLE = [
     {"property_id": "C01", "reason": "pure function of (endpoints, ice parameters, dz): no state, randomness, I/O, schedule or fault for a simulator to control; needs an ODE/quadrature oracle (different technique)"},
     {"property_id": "C02", "reason": "metamorphic relations between pure function evaluations (swap/translate/rotate endpoints); no history or fault dimension (lazy-cache aspect of tracers is covered under C06)"},
@@ -20,7 +26,6 @@ NOT_APPLICABLE = [
     {"property_id": "C16", "reason": "pure functions of depth/frequency arrays and model parameters"},
     {"property_id": "C18", "reason": "pure geometric/metamorphic relations over inputs (image geometry, layer splitting)"},
     {"property_id": "C20", "reason": "statement about every attribute reference in the source against a dependency range: static resolution, not an execution under faults (its concrete instances on this tree were nevertheless repaired because they made the claimed properties fail)"},
-    {"property_id": "C06", "reason": "claimed in DESIGN.md; check under construction in this session (will move to checks once committed)"},
     {"property_id": "C09", "reason": "claimed in DESIGN.md; check under construction in this session"},
     {"property_id": "C10", "reason": "claimed in DESIGN.md; check under construction in this session"},
     {"property_id": "C11", "reason": "claimed in DESIGN.md; check under construction in this session"},
